@@ -381,6 +381,7 @@ impl StepEnv {
     pub fn level_1_data_array<'a>(&self, py: Python<'a>) -> &'a PyArray1<u32> {
         let data = self.env.level_2_data();
         let data_vec = [
+            self.env.get_orderbook().get_trade_vol(),
             data.bid_price,
             data.ask_price,
             data.bid_vol,
